@@ -37,7 +37,10 @@ def _mk_spec(rng):
         have.add((i, j))
     for (i, j) in sorted(have):
         comm = rng.randint(0, 4) / 1000.0
-        edges.append(dict(src=f"n{i}", dst=f"n{j}", delay=comm, sim=comm, skip=False, window=rng.randint(1, 2), dist_kind=rng.choice(["raw", "wrapped"])))
+        kind = rng.choice(["raw", "wrapped", "trainable"])
+        # the expected delay (phase shift only) need not be the delay of the distribution: sometimes a more conservative number
+        expd = comm if rng.random() < 0.5 else rng.randint(0, 6) / 1000.0
+        edges.append(dict(src=f"n{i}", dst=f"n{j}", delay=expd, sim=comm, skip=False, window=rng.randint(1, 2), dist_kind=kind))
     if rng.random() < 0.6:  # skipped feedback connection
         j = rng.randrange(1, n)
         i = rng.randrange(0, j)
@@ -50,6 +53,8 @@ def _dist(kind, value):
     import distrax
     from rex import base
 
+    if kind == "trainable":  # a trainable delay created at `value` (its interpolation window is irrelevant in the asynchronous runtime)
+        return base.TrainableDist.create(delay=value, min=0.0, max=0.008)
     d = distrax.Deterministic(loc=value)
     return base.StaticDist.create(d) if kind == "wrapped" else d
 
@@ -159,7 +164,7 @@ def sim_case(seed, nsteps=5):
             e = spec["edges"][i]
             v = rng.randint(0, 6) / 1000.0
             with_delay = rng.random() < 0.6
-            nodes[e["dst"]].inputs[e["src"]].set_delay(delay_dist=_dist(rng.choice(["raw", "wrapped"]), v), delay=v if with_delay else None)
+            nodes[e["dst"]].inputs[e["src"]].set_delay(delay_dist=_dist(rng.choice(["raw", "wrapped", "trainable"]), v), delay=v if with_delay else None)
             cfg["edges"][i]["sim"] = v
             if with_delay:
                 cfg["edges"][i]["delay"] = v
